@@ -16,6 +16,7 @@ import (
 	"time"
 
 	"github.com/pion/transport/v3/vnet"
+	"verifharness/internal/gstate"
 	"verifharness/internal/res"
 	"verifharness/internal/vn"
 )
@@ -347,7 +348,7 @@ func (w *world) flushAll() bool {
 		for _, rm := range w.routers {
 			select {
 			case <-rm.flush.marks:
-			case <-time.After(20 * time.Second):
+			case <-time.After(10 * time.Second):
 				return false
 			}
 		}
@@ -462,6 +463,21 @@ func (w *world) check(r *res.Result) *viol {
 					if pp, has := m.perms[depKey(C.spec.NAT.FilB, st.inSrc)]; has && pp == st.phase {
 						ok = true
 						st.src, st.dst, st.must = st.inSrc, m.owner, 1
+					}
+				}
+				if !ok && m == nil {
+					// the enabling outbound datagram may have been translated already while its next hop (where the
+					// model learns the external address) has not been logged yet: any not-yet-learned mapping of this
+					// phase with a matching permission explains the admission
+					fk := depKey(C.spec.NAT.FilB, st.inSrc)
+					for _, um := range C.out {
+						if um.ext == "" && um.created == st.phase && um.owner == ev.dst {
+							if pp, has := um.perms[fk]; has && pp == st.phase {
+								ok = true
+								st.src, st.dst, st.must = st.inSrc, um.owner, 1
+								r.Count("nat_inbound_admitted_before_mapping_learned", 1)
+							}
+						}
 					}
 				}
 				if !ok {
@@ -983,6 +999,26 @@ func runCase(c *tcase, r *res.Result) (*viol, string) {
 		}
 		wg.Wait()
 		if !w.flushAll() {
+			// the marker is itself a datagram the rules admit: if every router goroutine is parked it is lost for good
+			parked := true
+			for k := 0; k < 3; k++ {
+				n := 0
+				for _, g := range gstate.Snapshot() {
+					if g.Has("vnet.(*Router).Start.func1") {
+						n++
+						if !gstate.Blocked(g.State) {
+							parked = false
+						}
+					}
+				}
+				if n == 0 {
+					parked = false
+				}
+				time.Sleep(2 * time.Millisecond)
+			}
+			if parked {
+				return &viol{"vnet:stuck", fmt.Sprintf("phase %d: a flush marker (a datagram a host sends to itself through its router) did not come back within 10s although every router goroutine is parked: a queued datagram is not being forwarded", pi)}, ""
+			}
 			return nil, "inconclusive: flush marker did not return"
 		}
 	}
